@@ -123,6 +123,7 @@ theorem rej_deriv_vMulQ (s a : Obj) (hr : a.rank = 0) (e : Deriv) (he : e ∈ a.
   simp only [hr', if_true]
   refine rej_bind (fun _ _ => ?_)
   refine rej_bind (fun _ _ => ?_)
+  refine rej_bind (fun _ _ => ?_)
   unfold mulDerivs
   obtain ⟨e', he'⟩ := filterMapE_error (mulStep s) a.derivs e .valueError he (mulStep_error s e hc)
   rw [he']
@@ -314,7 +315,40 @@ theorem rej_kindnum_vFloorMod (fl : Bool) (s : Obj) (z : Bool) (hk : s.kind = .i
     cases ha
     split
     · refine rej_bind (fun _ _ => ?_)
+      refine rej_bind (fun _ _ => ?_)
       exact fails_kernel s _ _ hk hp _
     · exact rej_raise _
+
+/-! #### units for a class that disallows them; another item shape for &=, |=, ^= -/
+
+theorem rej_unitsAllowed_vAdd (s a : Obj) (h : unitsAllowed s a = false) : Rejected (vAdd s (.q a)) := by
+  apply rejected_vAdd_q
+  unfold vAddQ
+  rej_walk
+
+theorem rej_unitsAllowed_vMul (s a : Obj) (hr : a.rank = 0) (h : unitsAllowed s a = false) :
+    Rejected (vMul s (.q a)) := by
+  refine rej_vMul_q s a (fun c => ?_)
+  unfold vMulQ
+  have hr' : (({ a with cls := c } : Obj).rank == 0) = true := by simpa [Obj.rank] using hr
+  have h' : unitsAllowed s { a with cls := c } = false := h
+  simp only [hr', if_true]
+  rej_walk
+
+theorem rej_unitsAllowed_vFloorMod (fl : Bool) (s a : Obj) (h : unitsAllowed s a = false) :
+    Rejected (vFloorMod fl s (.q a)) := by
+  unfold vFloorMod
+  refine rej_bind (fun _ _ => ?_)
+  refine rej_bind (fun _ _ => ?_)
+  refine rej_bind (fun _ _ => ?_)
+  simp only [toScalarArg, asScalar]
+  refine rej_bind (fun a' ha' => ?_)
+  cases ha'
+  split
+  · rej_walk
+  · exact rej_raise _
+
+theorem rej_item_vLogic (s a : Obj) (h : (a.item == s.item) = false) : Rejected (vLogic s (.q a)) := by
+  unfold vLogic; rej_walk
 
 end PMV.Faults
